@@ -18,7 +18,7 @@ LEVEL = "exploration"
 BATCH = 25
 TIMEOUT = 120
 USES_LAB = False
-REQUIRED_OBS = ["lists_checked", "mode_default", "mode_brief", "mode_minimal", "mode_short", "lists_with_mixed_spelling", "classes_of_size_3plus"]
+REQUIRED_OBS = ["lists_checked", "mode_default", "mode_brief", "mode_minimal", "mode_short", "lists_with_mixed_spelling", "classes_of_size_3plus", "lists_with_multiplicity_twins"]
 RULE = ("reaction lists of 4-40 reactions with planted classes of size 1-5: members are permutations of reactants/products, "
         "may repeat species, may differ only in temperature window or only in type, may use another spelling of the same "
         "species (e-/E-/E, #X with prefix '#' vs GX with prefix 'G'); modes {default, brief, minimal, short}; non-trivial = at "
@@ -44,6 +44,7 @@ def ident(n):
 def make_list(rng):
     n_classes = rng.randint(2, 12)
     items = []
+    twins = 0
     mixed = rng.random() < 0.35
     for c in range(n_classes):
         nre, npr = rng.choice([1, 2, 2, 3]), rng.choice([1, 1, 2, 3])
@@ -68,8 +69,29 @@ def make_list(rng):
             items.append(dict(base, type=next(t for t in TYPES if t != base["type"])))
         if rng.random() < 0.2:
             items.append(dict(base, tmax=base["tmax"] + 0.04 if base["tmax"] > 0 else 300.04))   # differs below the 0.1 K print precision
+        if rng.random() < 0.35:
+            t = multiplicity_twin(rng, base)
+            if t:
+                twins += 1
+                items.append(t)
+                if rng.random() < 0.4:
+                    items.append(dict(t, reactants=list(reversed(t["reactants"])), products=list(reversed(t["products"]))))
     rng.shuffle(items)
-    return {"items": items, "mixed": mixed}
+    return {"items": items, "mixed": mixed, "twins": twins}
+
+
+def multiplicity_twin(rng, base):
+    """Same species on each side, different multiplicities (H + H -> H2 vs H -> H2): never equivalent in any mode."""
+    side = rng.choice(["reactants", "products"])
+    xs = list(base[side])
+    dup = [x for x in xs if xs.count(x) > 1]
+    if dup and rng.random() < 0.5:
+        xs.remove(dup[0])
+    elif len(xs) < 3:
+        xs.append(rng.choice(xs))
+    else:
+        return None
+    return dict(base, **{side: xs})
 
 
 def respell(rng, n):
@@ -130,6 +152,8 @@ def run_case(case, ctx):
     obs["mode_" + (mode or "default")] += 1
     if case["mixed"]:
         obs["lists_with_mixed_spelling"] += 1
+    if case.get("twins"):
+        obs["lists_with_multiplicity_twins"] += 1
     # pairwise reference
     keys = [key(r, mode) for r in items]
     exp_idx, firsts, classes = [], [], {}
